@@ -478,7 +478,7 @@ func blocks(tier string) []block {
 			if l >= 3 {
 				alpha = p.reduced
 			}
-			out = append(out, block{pl: pl, length: l, alpha: alpha, size: count(enumState{}, alpha, l, l >= 3)})
+			out = append(out, block{pl: pl, length: l, alpha: alpha, size: count(enumState{}, alpha, l, true)})
 		}
 		out = append(out, block{pl: pl, length: 4, size: moveCount, move: true})
 		out = append(out, block{pl: pl, length: 5, size: multiCount, multi: true})
@@ -1350,15 +1350,15 @@ func risky(p *pipeline, seq []step) bool {
 		m := model(p, seq[:n])
 		// a user callback that existed is removed: constraints that gorm derived from it
 		// may survive in the registry (seen to recurse once the name is registered again)
+		// (the recursion needs a later call that brings the name up again)
 		if s := seq[n-1]; s.Op == opRemove && int(s.Name) >= userBase {
-			if prev := model(p, seq[:n-1])[int(s.Name)]; prev != nil && prev.live {
-				return true
+			again := false
+			for _, l := range seq[n:] {
+				if l.Name == s.Name || l.Bef == s.Name || l.Aft == s.Name {
+					again = true
+				}
 			}
-		}
-		// a second entry with requests of its own under a name that exists: the sorter then works
-		// with two sets of requests for one name
-		if s := seq[n-1]; s.Op != opRemove && (s.Bef != none || s.Aft != none) {
-			if prev := model(p, seq[:n-1])[int(s.Name)]; prev != nil && prev.live {
+			if prev := model(p, seq[:n-1])[int(s.Name)]; again && prev != nil && prev.live {
 				return true
 			}
 		}
@@ -1443,7 +1443,7 @@ func caseSeq(c *core.Ctx) (pl int, seq []step, origin string) {
 			if b.multi {
 				return b.pl, multiSeq(&pipelines[b.pl], idx), "exhaustive second-entry-family"
 			}
-			return b.pl, decode(b.alpha, b.length, idx, b.length >= 3), fmt.Sprintf("exhaustive length %d", b.length)
+			return b.pl, decode(b.alpha, b.length, idx, true), fmt.Sprintf("exhaustive length %d", b.length)
 		}
 		idx -= b.size
 	}
@@ -1666,6 +1666,7 @@ func run(c *core.Ctx) {
 	c.Add("removed_absence_checked", st.removedAbsent)
 	c.Add("builtin_pairs_checked", st.builtinPairs)
 	c.Add("exactly_once_checked", st.onceChecked)
+	c.Add("multi_entry_names_checked", st.multiChecked)
 	c.Add("constraints_skipped_unspecified_target", st.skippedWeak)
 	if !ran {
 		c.Inc("cases_error_outcome")
@@ -1689,7 +1690,7 @@ func run(c *core.Ctx) {
 			replacedSomething = true
 		}
 	}
-	if st.constraints+st.star > 0 || removedSomething || replacedSomething {
+	if st.constraints+st.star > 0 || removedSomething || replacedSomething || st.multiChecked > 0 {
 		if userLive > 0 || removedSomething || replacedSomething {
 			c.Shape(p.name, strings.Join(desc, ";"))
 			c.Inc("nontrivial_cases")
@@ -1709,9 +1710,9 @@ var Engine = &core.Engine{
 	ID:    "C17",
 	Level: "exploration",
 	Rule: "one case = one registration sequence on one of the six pipelines (Create, Query, Update, Delete, Row, Raw), applied to a fresh gorm handle and followed by a real execution of the pipeline against SQLite, twice: with the built-ins wrapped by recording functions (B) and on the pristine registry with the built-ins seen through driver events and model hooks (A). " +
-		"Calls: Register, Before(t).Register, After(t).Register, Before(t).After(t').Register (both chain orders), Replace, Remove; registered names: canonical fresh names, names removed earlier, and user names that exist at that moment (second entry under one name; in the length-3 enumeration with at most one request); targets t: every built-in of the pipeline, every user name introduced so far, the next name to be introduced (forward reference / unknown), '*'; Replace/Remove names: built-ins, user names, an unknown name. " +
+		"Calls: Register, Before(t).Register, After(t).Register, Before(t).After(t').Register (both chain orders), Replace, Remove; registered names: canonical fresh names, names removed earlier, and user names that exist at that moment (second entry under one name; in the enumeration such a call carries at most one request); targets t: every built-in of the pipeline, every user name introduced so far, the next name to be introduced (forward reference / unknown), '*'; Replace/Remove names: built-ins, user names, an unknown name. " +
 		"Enumerated completely: all sequences of length 0..2 on every pipeline (quick and thorough); thorough adds all sequences of length 3 with the built-in alphabet reduced to {first, main, last} built-in on Create/Update/Delete (full on Query/Row/Raw). Also enumerated on every pipeline: the 150 'move' sequences of length 4 (register u1 and u2 with plain/Before/After constraints, remove one, register it again with other constraints) and the 1 440 'second entry' sequences of length 3..6 (a name x that exists - a user callback registered plain / Before / After a built-in / Before or After '*', or the main built-in - gets a second entry through Register or through Before/After(..).Replace, with a neighbour registered plain / Before(x) / After(x); then nothing | Remove(x) | Remove, Register again (plain / After(neighbour)) | Replace(x) | Replace, Remove | Before(neighbour).Remove(x) | third Register, Remove). Then random sequences of length 3..8 over 5 user names (forward and removed names as targets, unknown name, '*', remove-and-register-again moves, second entries under existing user and built-in names by Register or by a Replace carrying a request, Remove calls carrying a request): 5 000 quick / 300 000 thorough. " +
-		"Ordering violations are classified by whether an order satisfying everything requested exists (side:*) or not (contradiction-accepted:*: the statement then demands an error return). distinct = (pipeline, literal sequence); non-trivial = no call returned an error, the pipeline ran, and at least one Before/After constraint with a running target, one removal or one replacement was checked against the firing order",
+		"Ordering violations are classified by whether an order satisfying everything requested exists (side:*) or not (contradiction-accepted:*: the statement then demands an error return). distinct = (pipeline, literal sequence); non-trivial = no call returned an error, the pipeline ran, and at least one Before/After constraint with a running target, one removal, one replacement or one name with several entries was checked against the firing order",
 	Assumptions: []string{
 		"a second entry under a name that exists at that moment (Register of an existing user or built-in name; Replace carrying Before/After, which gorm stores as an entry of its own) IS generated, but the statement does not say which of the handlers then runs nor where: demanded is only that some handler of the name fires, none of them twice, that the handler of a later plain Replace fires, and that after Remove(name) none of them fires (and a later Register of the name starts afresh); Before/After requests of and towards such a name, its Replace position and the built-in order relative to it are not checked",
 		"a built-in name that was removed and is then registered again is treated the same way (position unspecified); the random generator does not produce it",
